@@ -14,8 +14,8 @@ def gen_jobs(ctx):
     """GEN runs: (cfg name, cfg text, replay budget, tlc kwargs)."""
     th = ctx.thorough
     wide = dict(npaths=4 if th else 3, kinds=["rec", "alr"], names=["n1", "n2"], bodies=["v1", "v2"], labs=["l1", "l2", "l3"],
-                cmts=["none", "c1"], pads=[0, 1, 2], maxrules=3, maxfork=3, commits=4 if not th else 5, baseadv=1, forkfdis=True,
-                tombrename=True)
+                cmts=["none", "c1"], pads=[0, 1, 2], exts=["x0", "x1", "x2"], maxrules=3, maxfork=3, commits=4 if not th else 5,
+                baseadv=1, forkfdis=True, tombrename=True)
     return [
         # (1) exhaustive: every history of one file whose rules share one name (the F5 neighbourhood)
         ("c03_gen_dup.cfg", gh.cfg("EmitCase", npaths=1, names=["n1"], bodies=["v1"], labs=["l1", "l2", "l3"],
@@ -49,9 +49,9 @@ def mc_jobs(ctx, mode):
     ]
     if th:
         runs.append(("c03_mc_fields.cfg", dict(npaths=2, kinds=["rec", "alr"], names=["n1", "n2"], bodies=["v1", "v2"],
-                                               labs=["l1"], cmts=["none", "c1"], pads=[0, 1], maxrules=2, maxfork=2, commits=2,
-                                               forkfdis=True,
-                                               ops=["ModifyExpr", "RenameRule", "ChangeKind", "CommentOnlyEdit", "WhitespaceEdit",
+                                               labs=["l1"], cmts=["none", "c1"], pads=[0, 1], exts=["x0", "x1", "x2"], maxrules=2,
+                                               maxfork=2, commits=2, forkfdis=True,
+                                               ops=["ModifyExpr", "RenameRule", "ChangeKind", "CommentOnlyEdit", "WhitespaceEdit", "ModifyAlertFields",
                                                     "FileDisableEdit", "DeleteRule", "RenameFile", "DeleteFile", "RevertLast"])))
     return [(name, gh.cfg(inv, view=True, mode=mode, **kw), w) for name, kw in runs]
 
@@ -149,6 +149,7 @@ def run(ctx, cases_override=None):
         "distinct_nontrivial": nontrivial,
         "rule": "distinct = fork tree + (name-status, content) of every commit; non-trivial = >=2 commits or a file-level add/delete/rename/revert",
         "bound_only_histories": sum(1 for x in tags.get("NDEPS", []) if x[3] == 1),
+        "ops_histogram": {k: sum(1 for c in cases for o in c["log"] if o["op"] == k) for k in sorted({o["op"] for c in cases for o in c["log"]})},
         "gen": gstats, "commits_max": max(ncommit), "trace_records": len(trace),
         "git_commits_bound": sum(1 for r in trace if r["ev"] == "Commit"),
     }
